@@ -42,12 +42,19 @@ Definition ffuel : nat := 700.
    ids: 1 eval var (global code)  2 eval var (in a function)  3 eval function (global)  4 plain var
         5 implicit global (assignment to an undeclared name)  6 eval function (in a function)  7 indirect eval var
         8 function declaration (global code)  9 plain var deleted from inside a function  10 function parameter *)
+(* ids 20-26: accessor properties found on the prototype chain are called with the ORIGINAL receiver as this
+   (8.12.3 [[Get]] step 13 / 8.12.5 [[Put]] step 5.b), also through with, bracket access, call and inside methods *)
+Definition pin_acc (id : Z) : list Z :=
+  if id =? 20 then [42] else if id =? 21 then [5; 0] else if id =? 22 then [7; 3] else if id =? 23 then [42]
+  else if id =? 24 then [42; 42] else if id =? 25 then [9; 0; 9] else if id =? 26 then [42; 1] else [].
 Definition pin_spec (id : Z) : list Z :=
+  if (20 <=? id) && (id <=? 26) then pin_acc id else
   if (id =? 4) || (id =? 9) || (id =? 10) then [0; 1] else if (id =? 8) then [0; 2]
   else if (1 <=? id) && (id <=? 7) then [1; 0] else [].
 (* otto: every declaration goes through the same createBinding(name, deletable = false) / global property with
    configurable = false, whatever code declares it (cmplVariableDeclaration, cmplFunctionDeclaration) *)
 Definition pin_model (id : Z) : list Z :=
+  if (20 <=? id) && (id <=? 26) then pin_acc id else
   if (id =? 5) then [1; 0]
   else if (id =? 9) || (id =? 10) then [0; 1]
   else if (id =? 3) || (id =? 6) || (id =? 8) then [0; 2]
